@@ -380,6 +380,48 @@ def two_writers_one_process_scenario(ctx, home):
         m.close()
 
 
+def empty_streams_scenario(ctx, home):
+    """protocols all of whose steps are streams (one, two, three of them), written with every stream empty: a complete, valid stream without a single value
+    line / block of items - it must still begin with the format's header and the schema, from every writer (C++, Python; binary, NDJSON)"""
+    pkg = Pkg("EmptyS", [Rec("Smp", [("t", P("float64")), ("label", P("string"))]),
+                         Proto("OnlyOne", [("samples", S(N("Smp")))]),
+                         Proto("OnlyTwo", [("samples", S(P("int32"))), ("notes", S(P("string")))]),
+                         Proto("OnlyThree", [("a", S(P("uint8"))), ("b", S(V(P("float32")))), ("c", S(Opt(P("int32"))))])])
+    m = mut.Mut(pkg, os.path.join(ctx.workdir, "cases", "emptystreams"))
+    try:
+        m.generate()
+        c = m.codec
+        for proto in pkg.protocols():
+            for fill in ("all-empty", "last-only"):
+                vals = [[] for _ in proto.steps]
+                if fill == "last-only":
+                    vals[-1] = values.ValueGen(c, rng("C04es", proto.name), json_safe=True).steps(proto, stream_len=2)[-1]
+                data = c.encode_stream(proto, m.schema(proto.name), vals)
+                for ep in (rt.CppEndpoint(m, "plain"), rt.PyEndpoint(m), rt.PyEndpoint(m, mode="list")):
+                    for of in ("bin", "ndjson"):
+                        res = ep.copy(proto.name, "bin", of, data)
+                        ctx.ev()
+                        ctx.count("empty-streams.%s.%s" % (ep.name, of))
+                        ctx.case(("empty-streams", proto.name, fill, ep.name, of))
+                        what = "%s with %s streams written by %s as %s" % (proto.name, fill, ep.name, of)
+                        if res.rc != 0:
+                            ctx.violation("writer-failed:empty-streams:%s:%s" % (ep.name, of), "%s: %s" % (what, res.stderr[-300:]), {"model_dir": m.root})
+                            continue
+                        try:
+                            if of == "bin":
+                                _, sch = c.decode_header(res.out)
+                                same = (sch == m.schema(proto.name))
+                            else:
+                                first = json.loads(res.out.decode().split("\n")[0])
+                                same = (first.get("yardl", {}).get("schema") == json.loads(m.schema(proto.name)))
+                        except Exception as e:
+                            same = False
+                        if not same:
+                            ctx.violation("runtime-header-missing:empty-streams:%s:%s" % (ep.name, of), "%s: the output (%d bytes) does not begin with the header and the protocol's schema" % (what, len(res.out)), {"model_dir": m.root, "output_head": res.out[:200]})
+    finally:
+        m.close()
+
+
 def text_scenarios(ctx, home):
     """scenarios written as YAML text (constructs the model emitter does not spell): comments on array dimensions / enum values / union
     cases below a documented field or step, and a protocol whose schema is larger than 16 KiB"""
@@ -682,6 +724,7 @@ def run(ctx):
     same_name_scenario(ctx, home)
     enum_base_alias_scenario(ctx, home)
     zero_extent_scenario(ctx, home)
+    empty_streams_scenario(ctx, home)
     two_writers_one_process_scenario(ctx, home)
     text_scenarios(ctx, home)
 
